@@ -75,6 +75,7 @@ def opOfJson (j : Json) : Except String Op := do
   | "getnw" => pure (.getNowait (← jnat j "c") ⟨← jnat j "ty", ← jstr j "name"⟩ (← jbool j "opt"))
   | "get" => pure (.get t (← jnat j "c") ⟨← jnat j "ty", ← jstr j "name"⟩ (← jbool j "opt"))
   | "finish" => pure (.genFinish (← jnat j "c") (← jnat j "fid") (joptNat j "next"))
+  | "cancelget" => pure (.cancelGet (← jnat j "c") (← jnat j "lid") (joptNat j "next"))
   | "getall" => pure (.getAll (← jnat j "c") (← jnat j "ty"))
   | "addtd" => pure (.addTeardown (← jnat j "c") (← cbOfJson (← j.getObjVal? "cb")) (jboolD j "callable" true))
   | "current" => pure (.current t)
